@@ -277,3 +277,5 @@ def run_case(case, res):
         run_matrix(case, res)
     else:
         run_train(case, res, adaptive=(g == "train_adaptive"))
+
+RULE += (" " + 'Integer-typed features / targets; deeply graded refinement trees (mesh widths down to 2^-26).')
